@@ -503,3 +503,35 @@ def class_ordered(rep, mod, rule, rule_elide):
                   'it (spec.isOrExtends), with the documented root exception' % var
                   if not p_el[var] else {'filter': sorted(set(p_el[var]))[:2]},
                   construct='elide:' + var, node=f)
+
+
+def provides_users(rep, dmod, rule):
+    """alsoProvides / noLongerProvides re-declare on every path"""
+    f = find_def(dmod, 'alsoProvides')
+    want = ('directlyProvides(object, directlyProvidedBy(object), *interfaces)',
+            'directlyProvides(object, directlyProvidedBy(object), *_normalizeargs(interfaces))')
+    ss = normal(summaries(f))
+    bad = [ps for ps in ss if [nt(e.r) for e in ps.events if e.kind == 'call' and
+                               nt(e.r.func) == 'directlyProvides'] not in
+           ([want[0]], [want[1]])]
+    rep.check(rule, 'declarations.alsoProvides', bool(ss) and not bad,
+              'on every path: existing direct declarations first, then the new '
+              'interfaces' if not bad else
+              {'a path does not re-declare': [[nt(e.r)[:60] for e in ps.events][:4]
+                                               for ps in bad][:2],
+               'conditions': [[c for c, t, p in ps.order][:3] for ps in bad][:2]},
+              node=f)
+    f = find_def(dmod, 'noLongerProvides')
+    want = 'directlyProvides(object, directlyProvidedBy(object) - interface)'
+    ss = normal(summaries(f))
+    bad = [ps for ps in ss if [nt(e.r) for e in ps.events if e.kind == 'call' and
+                               nt(e.r.func) == 'directlyProvides'] != [want]]
+    allp = summaries(f, normal_only=False)
+    still = [ps for ps in allp if ps.fact('interface.providedBy(object)')]
+    okraise = bool(still) and all(ps.kind == 'raise' for ps in still) and all(
+        any(nt(e.r.func) == 'directlyProvides' for e in ps.events if e.kind == 'call')
+        for ps in still)
+    rep.check(rule, 'declarations.noLongerProvides', bool(ss) and not bad and okraise,
+              'on every path declares directlyProvidedBy(object) - interface, then '
+              'rejects interfaces still provided through the class (%s)' % okraise,
+              node=f)
